@@ -454,9 +454,11 @@ Definition rename_layer (g : geo) (olds news : list str) : res geo :=
 (** ** new names: new_dict_key(d, istart, justfn, colname_length, chars = ascii_lowercase, spaces = True) *)
 Definition lowercase : str := s2l "abcdefghijklmnopqrstuvwxyz".
 Definition colname_length (g : geo) : nat := match conv g with 1%nat => 2 | _ => 3 end.
-(** [right_justified_names]: all(blkname[0:3] == blkname[0:3].rjust(3) for blkname in block_name_list) *)
+(** [right_justified_names] (as repaired by 61b1858): n = 2 if convention == 2 else 3;
+    all(blkname[0:n] == blkname[0:n].strip().rjust(n) for blkname in block_name_list) *)
 Definition right_justified_names (g : geo) : bool :=
-  forallb (fun b => str_eqb (firstn 3 b) (rjust 3 (firstn 3 b))) (bnl g).
+  let n := match conv g with 2%nat => 2%nat | _ => 3%nat end in
+  forallb (fun b => str_eqb (firstn n b) (rjust n (strip (firstn n b)))) (bnl g).
 Definition just (g : geo) (s : str) : str :=
   if right_justified_names g then rjust (colname_length g) s else ljust (colname_length g) s.
 Fixpoint new_key_from {V} (d : list (str * V)) (jf : str -> str) (fuel : nat) (i : N) : res (str * N) :=
